@@ -33,7 +33,7 @@ m = {
         "guard": "pnordahl_monorail_verif",
         "enable": "rustflags = [\"--cfg\", \"pnordahl_monorail_verif\"] in /verif/harness/.cargo/config.toml; the harness crate (path dependency on /repo, plus /repo/src/bin/monorail.rs via include!) is rebuilt by every check",
         "baseline_off_cmd": "cd /repo && cargo nextest run --workspace --no-fail-fast --test-threads 8 --offline",
-        "source_commits": ["64ed106"],
+        "source_commits": ["64ed106", "18246f8", "2f34e95"],
         "add_only": True,
     },
     "engines": [
@@ -46,7 +46,7 @@ m = {
     ],
     "checks": checks,
     "not_applicable": [{"property_id": p, "reason": "not yet claimed: check under construction (design in DESIGN.md section 9); not judged inapplicable"} for p in ALL if p not in PROPS],
-    "notes": "All 20 properties are being claimed in the order given in DESIGN.md section 13; a property listed under not_applicable with reason 'not yet claimed' is work in progress, not judged inapplicable.",
+    "notes": "All 20 properties are claimed at level proof (none not_applicable). /repo carries twelve fix: commits for genuine defects found (D1-D12, recorded as fixed entries in known_findings.json) and three hook commits guarded by cfg(pnordahl_monorail_verif). Seeded changes used to test the checks are under /verif/seeded (never committed in /repo).",
 }
 json.dump(m, open(os.path.join(VERIF, "MANIFEST.json"), "w"), indent=1)
 print("claimed:", " ".join(claimed))
